@@ -449,6 +449,12 @@ class Gen:
                 elems.append({'k': 'type', 'name': self.name('kc'), 'prim': 'uint8', 'presence': 'constant',
                               'const': '3'})
                 self.hit('composite.constant_member')
+        # a <ref> to a constant TYPE (takes no space, has no setter, must not be visited): made likely on purpose, the
+        # uniform choice above picks a constant out of the whole pool too rarely
+        const_types = [ty for ty in pool if (lambda t: t['k'] == 'type' and t.get('presence') == 'constant')(self.find(types, ty))]
+        if const_types and self.maybe(0.35):
+            elems.insert(r.randint(0, len(elems)), {'k': 'ref', 'name': self.name('rk'), 'type': r.choice(const_types)})
+            self.hit('composite.ref_to_constant_type')
         if all(self.is_const(e, types) for e in elems):
             elems.append({'k': 'type', 'name': self.name('m'), 'prim': 'uint8'})
         for e in elems:
